@@ -6,6 +6,7 @@
 //! Values are even integers below 2^40 (exact in f64, every division by 4 down to the maximum
 //! depth is exact), thresholds are integers on, next to and between the cumulative sums.
 use crate::common::*;
+use moc::deser::fits::skymap::from_fits_skymap;
 use moc::elem::valuedcell::valued_cells_to_moc_with_opt;
 use moc::storage::u64idx::U64MocStore;
 
@@ -93,12 +94,184 @@ fn thresholds(rng: &mut Rng, cells: &[VCell], asc: bool) -> (u64, u64) {
   (a.min(b), a.max(b))
 }
 
+
+// ------------------------------------------------------------------ sky-map front end
+fn card(k: &str, v: &str) -> Vec<u8> {
+  let mut s = format!("{:<8}= {:>20}", k, v);
+  while s.len() < 80 {
+    s.push(' ');
+  }
+  s.into_bytes()
+}
+fn pad2880(b: &mut Vec<u8>, fill: u8) {
+  while b.len() % 2880 != 0 {
+    b.push(fill);
+  }
+}
+/// IMPLICIT / NESTED HEALPix sky map with one f64 column
+fn skymap_fits(depth: u8, pix: &[u64]) -> Vec<u8> {
+  let mut b = Vec::new();
+  for (k, v) in [("SIMPLE", "T"), ("BITPIX", "8"), ("NAXIS", "0"), ("EXTEND", "T")] {
+    b.extend(card(k, v));
+  }
+  b.extend(format!("{:<80}", "END").into_bytes());
+  pad2880(&mut b, b' ');
+  let nside = 1u64 << depth;
+  for (k, v) in [
+    ("XTENSION", "'BINTABLE'".to_string()),
+    ("BITPIX", "8".to_string()),
+    ("NAXIS", "2".to_string()),
+    ("NAXIS1", "8".to_string()),
+    ("NAXIS2", pix.len().to_string()),
+    ("PCOUNT", "0".to_string()),
+    ("GCOUNT", "1".to_string()),
+    ("TFIELDS", "1".to_string()),
+    ("TTYPE1", "'PROB    '".to_string()),
+    ("TFORM1", "'D       '".to_string()),
+    ("PIXTYPE", "'HEALPIX '".to_string()),
+    ("ORDERING", "'NESTED  '".to_string()),
+    ("COORDSYS", "'C       '".to_string()),
+    ("NSIDE", nside.to_string()),
+    ("INDXSCHM", "'IMPLICIT'".to_string()),
+  ] {
+    let mut c = if v.starts_with('\'') { format!("{:<8}= {:<20}", k, v) } else { format!("{:<8}= {:>20}", k, v) };
+    while c.len() < 80 {
+      c.push(' ');
+    }
+    b.extend(c.into_bytes());
+  }
+  b.extend(format!("{:<80}", "END").into_bytes());
+  pad2880(&mut b, b' ');
+  for v in pix {
+    b.extend((*v as f64).to_be_bytes());
+  }
+  pad2880(&mut b, 0);
+  b
+}
+
+/// The sky-map reader feeds the selection with the map's pixels of positive value (it may fuse a run
+/// of CONTIGUOUS pixels of equal value into larger cells).  Family 1: no two contiguous pixels have
+/// the same positive value (equal values only across a null pixel or further apart), so the map
+/// handed to the selection must be the list of positive pixels in pixel order and the result must be
+/// the model's selection on it, whatever the options.  Family 2: contiguous runs of equal values;
+/// only the tie-independent facts are decided (from = 0, to = total selects exactly the positive
+/// pixels; from = to selects nothing in strict mode).
+fn skymap_cases(rep: &mut Report, orc: &mut Oracle, rng: &mut Rng, n: u64) {
+  for it in 0..n {
+    let depth: u8 = if rng.chance(1, 3) { 1 } else { 0 };
+    let npix = 12usize << (2 * depth as usize);
+    let family2 = it % 5 == 4;
+    let mut pix: Vec<u64> = Vec::with_capacity(npix);
+    let mut prev = 0u64;
+    for _ in 0..npix {
+      let v = if rng.chance(1, 5) {
+        0
+      } else if family2 && prev > 0 && rng.chance(1, 2) {
+        prev
+      } else {
+        let mut v = 2 * rng.range(1, 9);
+        if !family2 && v == prev {
+          v += 2;
+        }
+        v
+      };
+      pix.push(v);
+      if v > 0 || !family2 {
+        prev = v;
+      }
+    }
+    if !family2 {
+      // plant equal values on both sides of a null pixel
+      let j = rng.below((npix - 2) as u64) as usize;
+      let v = 2 * rng.range(1, 9);
+      pix[j] = v;
+      pix[j + 1] = 0;
+      pix[j + 2] = v;
+      for k in [j, j + 2] {
+        // keep the neighbours different
+        if k > 0 && k - 1 != j + 1 && pix[k - 1] == v {
+          pix[k - 1] = v + 2;
+        }
+        if k + 1 < npix && k + 1 != j + 1 && pix[k + 1] == v {
+          pix[k + 1] = v + 2;
+        }
+      }
+      // the planting may have created an equal contiguous pair further away: repair by bumping
+      for k in 1..npix {
+        if pix[k] > 0 && pix[k] == pix[k - 1] {
+          pix[k] += 20;
+        }
+      }
+    }
+    let cells: Vec<VCell> = pix.iter().enumerate().filter(|(_, v)| **v > 0).map(|(i, v)| VCell { d: depth, i: i as u64, v: *v, k: *v }).collect();
+    let total: u64 = cells.iter().map(|c| c.v).sum();
+    let asc = rng.chance(1, 2);
+    let strict = rng.chance(1, 2);
+    let nosplit = rng.chance(1, 3);
+    let rev = rng.chance(1, 2);
+    let (from, to) = if family2 { if rng.chance(1, 2) { (0, total) } else { let x = rng.below(total + 1); (x, x) } } else { thresholds(rng, &cells, asc) };
+    let bytes = skymap_fits(depth, &pix);
+    let got = catch(|| from_fits_skymap(std::io::BufReader::new(std::io::Cursor::new(bytes.clone())), 0.0, from as f64, to as f64, asc, strict, nosplit, rev).map(|m| m.moc_ranges().iter().map(|x| (x.start, x.end)).collect::<Vec<(u64, u64)>>()).map_err(|e| e.to_string()));
+    rep.evaluations += 1;
+    rep.count(if family2 { "skymap:contiguous-runs" } else { "skymap:no-contiguous-equal" });
+    let desc = format!("SKYMAP depth={} pixels={:?} from={} to={} asc={} strict={} nosplit={} rev={}", depth, pix, from, to, asc, strict, nosplit, rev);
+    let out = match got {
+      Ok(Ok(r)) => r,
+      other => {
+        rep.violation("from_fits_skymap fails on a valid sky map", &desc, &format!("{:?}", other), "", "C20 (sky-map front end)");
+        continue;
+      }
+    };
+    if family2 {
+      let sh = 2 * (29 - depth as u32);
+      let exp: Vec<(u64, u64)> = if from == to && strict {
+        Vec::new()
+      } else if from == 0 && to == total {
+        let mut v: Vec<(u64, u64)> = Vec::new();
+        for c in &cells {
+          let (a, b) = (c.i << sh, (c.i + 1) << sh);
+          match v.last_mut() {
+            Some(l) if l.1 == a => l.1 = b,
+            _ => v.push((a, b)),
+          }
+        }
+        v
+      } else {
+        continue; // from == to, non strict: at most one boundary piece, tie dependent
+      };
+      if out != exp {
+        rep.violation("sky map with contiguous runs of equal values: the whole / the empty selection is wrong", &desc, &ranges_str(&out), &ranges_str(&exp), "C20_checker_bracket_exact (sky-map front end)");
+      }
+      continue;
+    }
+    let head = format!("{} {} {} {} {} {} {} {} {}", depth, from, to, asc as u8, strict as u8, nosplit as u8, rev as u8, cells.len(), cells.iter().map(|c| format!("{} {} {} {}", c.d, c.i, c.v, c.k)).collect::<Vec<_>>().join(" "));
+    let line = format!("VSEL 1 {} {}", head, ranges_str(&out));
+    let ans = orc.ask(&line);
+    let parsed = ans.strip_prefix("OK").and_then(|b| {
+      let mut p = b.split('|');
+      Some((p.next()?.trim().to_string(), p.next()?.split_whitespace().map(|x| x == "1").collect::<Vec<bool>>()))
+    });
+    match parsed {
+      Some((model, flags)) if flags.len() == 6 => {
+        if from < to && cells.len() >= 2 {
+          rep.nontrivial(&desc);
+        }
+        let samecell_split = flags[5] && !nosplit;
+        if model != ranges_str(&out) && !samecell_split {
+          rep.violation("from_fits_skymap: the selection differs from the model's selection on the map's positive pixels", &format!("{} # {}", desc, line), &ranges_str(&out), &model, "C20_upper_descent_mass / C20_lower_descent_mass (sky-map front end)");
+        }
+      }
+      _ => rep.violation("oracle-error", &line.chars().take(400).collect::<String>(), "", &ans.chars().take(200).collect::<String>(), "internal"),
+    }
+  }
+}
+
 pub fn run(ctx: &Ctx) -> Report {
   let mut rep = Report::default();
   let mut orc = Oracle::spawn();
   let mut rng = Rng::new(ctx.seed);
   let store = U64MocStore::get_global_store();
-  rep.rule = "multi-order maps of 1-8 disjoint cells of mixed depth 0..3 (maximum depth up to 2 levels deeper), even integer values (0 allowed) such that every sub-cell value down to the maximum depth is an integer (f64 arithmetic exact), densities value*4^depth with ties; threshold pairs on, one unit next to, and between the cumulative sums (incl. 0, the total, inside a deepest piece, both inside the same cell) x {ascending, descending} x {strict, non-strict} x {split, no-split} x {direct, reverse descent}; through valued_cells_to_moc_with_opt and U64MocStore::from_valued_cells; the output must equal the faithful model's selection and satisfy every clause of the verified checker. non-trivial = from < to and at least 2 cells; distinct = distinct case line".to_string();
+  rep.rule = "multi-order maps of 1-8 disjoint cells of mixed depth 0..3 (maximum depth up to 2 levels deeper), even integer values (0 allowed) such that every sub-cell value down to the maximum depth is an integer (f64 arithmetic exact), densities value*4^depth with ties; threshold pairs on, one unit next to, and between the cumulative sums (incl. 0, the total, inside a deepest piece, both inside the same cell) x {ascending, descending} x {strict, non-strict} x {split, no-split} x {direct, reverse descent}; through valued_cells_to_moc_with_opt and U64MocStore::from_valued_cells; IMPLICIT / NESTED sky-map FITS files (depth 0-1, null pixels, equal values on both sides of a null pixel, contiguous runs of equal values) through from_fits_skymap; the output must equal the faithful model's selection and satisfy every clause of the verified checker. non-trivial = from < to and at least 2 cells; distinct = distinct case line".to_string();
   let n = ctx.n(6_000, 200_000);
   for _ in 0..n {
     let maxd_req: u8 = rng.range(0, 5) as u8;
@@ -185,6 +358,7 @@ pub fn run(ctx: &Ctx) -> Report {
       }
     }
   }
+  skymap_cases(&mut rep, &mut orc, &mut rng, ctx.n(800, 30_000));
   rep.notes.push(format!("oracle calls: {}", orc.calls));
   rep
 }
